@@ -32,3 +32,30 @@ Proof.
   exists pq, li, e. unfold kind_score in Hx'. rewrite Hk in Hx'. auto.
 Qed.
 Print Assumptions C13_probe_exact.
+
+(** With the number of probes equal to (or above, or <= 0 meaning) the number of clusters, an IVF
+    search scans a permutation of the candidates of exhaustive search over the same vectors, and so
+    returns exactly its score sequence and result count — for every trained state, query, k,
+    threshold and id restriction *)
+From Comet Require Import Proofs.IVFP.
+Theorem C13_full_probe_equals_exhaustive : forall p s rq q o,
+  p_kind p = KIVF -> ivf_wf p s ->
+  (r_nprobes rq <= 0 \/ p_nlist p <= r_nprobes rq) ->
+  search_single p s rq q = Ok o ->
+  exists pq, preprocess (p_metric p) q = Some pq /\
+    let E := scan_list s rq (fun e => dist (p_metric p) pq (e_vec e)) (all_entries s) in
+    map skey (so_full o) = map skey (sort_cands E) /\ so_cut o = want (r_k rq) (length E).
+Proof. exact ivf_full_probe_equals_exhaustive. Qed.
+Print Assumptions C13_full_probe_equals_exhaustive.
+
+(** the state invariant used above is established by Train and kept by Add / Remove / Flush *)
+Theorem C13_wf_after_train : forall p s vs s',
+  p_kind p = KIVF -> 0 < p_nlist p -> length (st_lists s) = Z.to_nat (p_nlist p) ->
+  vtrain_op p s vs = (s', 0) -> ivf_wf p s'.
+Proof. exact ivf_wf_train. Qed.
+Print Assumptions C13_wf_after_train.
+
+Theorem C13_wf_preserved : forall p s, ivf_wf p s ->
+  (forall id v, ivf_wf p (fst (vadd_op p s id v))) /\ (forall id, ivf_wf p (fst (vremove_op s id))) /\ ivf_wf p (vflush_op s).
+Proof. exact ivf_wf_preserved. Qed.
+Print Assumptions C13_wf_preserved.
